@@ -13,6 +13,9 @@
 package main
 
 import (
+	"runtime"
+	"sync/atomic"
+	"sync"
 	"bytes"
 	"context"
 	"encoding/json"
@@ -1240,6 +1243,66 @@ func (e *env) reqCase(class string, q *AReq) {
 	}
 }
 
+// sharedCase: one translator, many clients at once.  Every request is translated alone first (the reference), then
+// some requests that fail (unparsable, oversize) go through, then all requests are translated at the same time, several
+// rounds: what is sent upstream for a client depends on that client's request only.
+func (e *env) sharedCase(k, rounds int) {
+	tr := anthropic.NewTranslator(vlib.QuietLogger(), config.AnthropicTranslatorConfig{Enabled: true, MaxMessageSize: 1 << 20})
+	one := func(body string) string {
+		out := "panic"
+		func() {
+			defer func() { _ = recover() }()
+			req := httptest.NewRequest("POST", "/olla/anthropic/v1/messages", strings.NewReader(body))
+			res, err := tr.TransformRequest(context.Background(), req)
+			if err != nil {
+				out = fmt.Sprint("error: ", classify(err))
+				return
+			}
+			b, _ := json.Marshal(res.OpenAIRequest)
+			out = string(b) + "|" + res.ModelName + "|" + res.TargetPath
+		}()
+		return out
+	}
+	bodies := make([]string, k)
+	ref := make([]string, k)
+	for i := range bodies {
+		q := genReq(e.r)
+		q.Model = fmt.Sprintf("client-%02d-model", i)
+		bodies[i] = q.render(e.r)
+		ref[i] = one(bodies[i])
+	}
+	for _, bad := range []string{`{"model":"m","messages":[`, `{"model":5}`, strings.Repeat("x", 2<<20), `{"model":"m","max_tokens":1,"messages":[{"role":"user","content":[{"type":"tool_result"}]}]}`} {
+		one(bad)
+	}
+	mism, first := 0, ""
+	var mu sync.Mutex
+	for rd := 0; rd < rounds; rd++ {
+		var wg sync.WaitGroup
+		var start int32
+		for i := range bodies {
+			wg.Add(1)
+			go func(i int) {
+				defer wg.Done()
+				for atomic.LoadInt32(&start) == 0 {
+					runtime.Gosched()
+				}
+				if got := one(bodies[i]); got != ref[i] {
+					mu.Lock()
+					mism++
+					if first == "" {
+						first = fmt.Sprintf("round %d client %d: alone its request became %.400s; among %d concurrent clients %.400s", rd, i, ref[i], k, got)
+					}
+					mu.Unlock()
+				}
+			}(i)
+		}
+		atomic.StoreInt32(&start, 1)
+		wg.Wait()
+	}
+	e.c.Emit(map[string]any{"kind": "shared", "clients": k, "rounds": rounds, "impl": map[string]any{"mismatches": mism, "first": first}})
+	e.c.Count("shared-translator")
+}
+
 func (e *env) malformed(why, body string, expectError bool) {
 	m := map[string]any{"kind": "malformed", "why": why, "expect_error": expectError, "impl": e.call(body)}
 	if len(body) <= 600 {
@@ -1414,6 +1477,7 @@ func main() {
 		e.malformed("two-documents", g+g, false)
 	}
 
+	e.sharedCase(24, map[bool]int{false: 40, true: 400}[tier == "thorough"])
 	e.c.Close(map[string]any{"exhaustive": false,
 		"exhaustive_note": "the request grammar is infinite; every tool_choice form (string / object / object+name / other / null / absent x keyword) is enumerated with and without tools, every malformed kind is run at least once, everything else is sampled"})
 }
